@@ -344,7 +344,9 @@ type Func struct {
 }
 type Program struct {
 	Types []*Type
-	Funcs []*Func
+	// Globals are module-level constants (only ever shadowed by locals in generated programs)
+	Globals []*Let
+	Funcs   []*Func
 	// Features lists the generator features the program uses (for known-finding exclusion and labels).
 	Features map[string]int
 }
